@@ -1,5 +1,11 @@
 """C05  Clusters are exactly the connected components of the thresholded graph.
 
+ T  translators/c05_sql.py records every CTE the real solve_connected_components hands to the
+    database API on a probe run (with and without threshold, two passes of the loop), reduces it to
+    a relational skeleton (join kinds and keys, min/aggregates, the needs_updating filter, <> / >=
+    comparisons, UNION vs UNION ALL, IN / NOT IN sub-selects, data flow between passes) and Coq
+    decides, one obligation per CTE and pass, that it is the skeleton Model/CCSkel.v records for
+    the corresponding definition of Model/CC.v.
  P  Properties/C05.v: the list-level, statement-by-statement model of solve_connected_components
     (Model/CC.v) returns every node exactly once with cluster_id = minimum of its connected
     component, and never exhausts its |V|^2+1 fuel; corollaries (same cluster iff connected,
@@ -168,6 +174,49 @@ def diagnose(ctx: Ctx, case, kind):
     return False
 
 
+SKEL_HEADER = """From Coq Require Import String List Bool.
+From Splinkv Require Import Model.CCSkel.
+Import ListNotations.
+Open Scope string_scope.
+"""
+
+
+def skeleton_stage(ctx: Ctx):
+    """T: regenerate the relational skeleton of every CTE of solve_connected_components from /repo and
+    let Coq compare it with the skeleton Model/CCSkel.v records for the corresponding Gallina definition."""
+    from translators import c05_sql as T
+    try:
+        obs = T.obligations()
+    except Exception as e:  # noqa: BLE001
+        ctx.obligation("T: record and translate the SQL of solve_connected_components", False, repr(e)[:600])
+        return [{"obligation": "T: statement recording", "why": repr(e)[:600]}]
+    broken = []
+    terms, names = [], []
+    for name, s, err in obs:
+        if err is not None:
+            ctx.obligation(f"T skeleton {name}", False, err)
+            broken.append({"obligation": f"T skeleton {name}", "why": "untranslatable: " + err})
+            continue
+        terms.append(f'("{name.split("@")[0]}", {T.to_coq(s)})')
+        names.append((name, s))
+    bad, errs = ctx.eval_cases("C05_skel", SKEL_HEADER, terms, "skel_ok", shard=100, timeout=300)
+    for e in errs:
+        ctx.obligation("T skeleton shard evaluation", False, e)
+        broken.append({"obligation": "T skeleton shard evaluation", "why": e[:400]})
+    ctx.obligations += len(terms)
+    ctx.discharged += (len(terms) - len(bad)) if not errs else 0
+    for i in bad:
+        name, s = names[i]
+        ctx.log(f"OBLIGATION FAILED: T skeleton {name}: regenerated {T.to_text(s)}")
+        broken.append({"obligation": f"T skeleton {name}", "regenerated_skeleton": T.to_text(s),
+                       "expected": "Model/CCSkel.v: sk_" + name.split("@")[0].replace("/", "_")})
+    ctx.cov["skeleton_obligations"] = len(terms) + sum(1 for _, _, e in obs if e)
+    ctx.cov["skeleton_obligation_names"] = [n for n, _, _ in obs]
+    if names:
+        ctx.cov["samples"].append({"skeleton_obligation": {"name": names[-2][0], "skeleton": T.to_text(names[-2][1])}})
+    return broken
+
+
 def run(ctx: Ctx):
     ctx.cov["rule"] = (
         "every labelled graph on <=4 nodes (quick: <=5 one by one on SQLite, thorough: +6000 of the 32768 on 6 nodes one "
@@ -178,6 +227,9 @@ def run(ctx: Ctx):
         "to an edge probability, 0 and 1) / integer match weight; a case is non-trivial when it has >=3 nodes, >=2 edge "
         "rows and between 1 and n-1 components; distinct by (entry, backend, ids, edge rows, threshold).")
     ctx.trusted += [
+        "translators/c05_sql.py (sqlglot parse of the CTE text recorded from a real run; table names reduced to roles; "
+        "ORDER BY dropped); expected skeletons in Model/CCSkel.v are the DESIGN-3b reading of the Gallina definitions "
+        "(by inspection; the lock-step part of X compares the same tables with the engine)",
         "harness/c05_x.py: id -> rank map (numeric for integer ids, byte order for ASCII strings and sds||'-__-'||uid)",
         "modelled not verified: SQL engines' UNION/GROUP BY/min/JOIN/NOT IN semantics per DESIGN 3b (checked table by "
         "table on the lock-step sample); match_probability never NULL; edges only mention rows of the node table",
@@ -190,6 +242,7 @@ def run(ctx: Ctx):
                                    ["splink/internals/connected_components.py", "splink/internals/clustering.py",
                                     "splink/internals/linker_components/clustering.py",
                                     "splink/internals/unique_id_concat.py", "splink/internals/misc.py"]}
+    broken_T = skeleton_stage(ctx)
     R = Runner(ctx)
     if ctx.replay:
         rp = json.loads(open(ctx.replay).read())
@@ -246,6 +299,12 @@ def run(ctx: Ctx):
             found += 1
         elif found < 3:
             unexplained.append((case, kind))
+    if broken_T and not found and not reported:
+        ctx.violation(
+            "the SQL that solve_connected_components emits no longer has the shape Model/CC.v encodes ("
+            + ", ".join(b["obligation"] for b in broken_T[:6]) + "); the search over the exhaustive and adversarial "
+            "inputs found no input on which the clusters are wrong",
+            {"broken": [b["obligation"] for b in broken_T], "details": broken_T[:8]}, found_input=False)
     if bad and not found:
         case, kind = unexplained[0] if unexplained else R.meta[bad[0]]
         ctx.violation(
